@@ -128,6 +128,12 @@ Theorem tokenizer_spec : forall s, closed s -> split_tex_space s = Ok (spec_toke
 Proof. exact tokenizer_spec_pf. Qed.
 Print Assumptions tokenizer_spec.
 
+(* ... and for EVERY string up to the strip() the code applies to each token: a token that ends inside a
+   never-closed group keeps its inner whitespace in the specification, the code strips it at the end *)
+Theorem tokenizer_spec_all : forall s, split_tex_space s = Ok (map strip (spec_tokens s)).
+Proof. exact tokenizer_spec_all_pf. Qed.
+Print Assumptions tokenizer_spec_all.
+
 (* hence the name parts are the specification's tokens, form by form *)
 Theorem person_tokens_spec : forall s parts p rep, closed s ->
   split_tex_comma (strip s) = Ok parts -> person_of_string s = Ok (p, rep) ->
@@ -162,26 +168,18 @@ Example ex_no_tokens : person_of_string (s2l "~") = Ok (empty_person, false).
 Proof. vm_compute. auto. Qed.
 
 (* each token's case is decided by its first brace-level-0 letter or special character
-   (Spec/Names.v token_case) -- REFUTED for the code as it is: a backslash at brace level 1 that does
-   not open a special character decides "not von" at once (finding FC04a) ... *)
-Theorem token_case_rule_refuted : exists tok, is_von_name tok = Ok false /\ spec_is_von tok = true.
-Proof. exact token_case_rule_refuted_pf. Qed.
-Print Assumptions token_case_rule_refuted.
+   (Spec/Names.v token_case / spec_is_von), for every token *)
+Theorem token_case_rule : forall tok b, is_von_name tok = Ok b -> b = spec_is_von tok.
+Proof. exact token_case_rule_pf. Qed.
+Print Assumptions token_case_rule.
 
-(* ... and true for every token without such a backslash before the deciding character.
-   Full statement (false, see above):  forall tok b, is_von_name tok = Ok b -> b = spec_is_von tok *)
-Theorem token_case_rule_partial : forall tok b, no_stray_backslash tok 0 = true ->
-  is_von_name tok = Ok b -> b = spec_is_von tok.
-Proof. exact token_case_rule_partial_pf. Qed.
-Print Assumptions token_case_rule_partial.
-
-Example ex_case_special_lower : no_stray_backslash (s2l "{\'e}X") 0 = true /\ is_von_name (s2l "{\'e}X") = Ok true.
+Example ex_case_special_lower : is_von_name (s2l "{\'e}X") = Ok true.
 Proof. vm_compute. auto. Qed.
-Example ex_case_special_upper : no_stray_backslash (s2l "{\'E}x") 0 = true /\ is_von_name (s2l "{\'E}x") = Ok false.
+Example ex_case_special_upper : is_von_name (s2l "{\'E}x") = Ok false.
 Proof. vm_compute. auto. Qed.
-Example ex_case_braced_then_lower : no_stray_backslash (s2l "{A}b") 0 = true /\ is_von_name (s2l "{A}b") = Ok true.
+Example ex_case_braced_then_lower : is_von_name (s2l "{A}b") = Ok true.
 Proof. vm_compute. auto. Qed.
-Example ex_case_refuted : no_stray_backslash (s2l "{a\b}c") 0 = false.
+Example ex_case_former_FC04a : is_von_name (s2l "{a\b}c") = Ok true /\ spec_is_von (s2l "{a\b}c") = true.
 Proof. vm_compute. auto. Qed.
 Example ex_atomic : closed (s2l "{von der} Last, {Jr, {Sr}}, A {B C}") /\
   person_of_string (s2l "{von der} Last, {Jr, {Sr}}, A {B C}") =
@@ -193,6 +191,6 @@ Proof. vm_compute. auto. Qed.
 Example ex_tokenizer : closed (s2l "a~b\ c  {d e}f\~g ~ h") /\
   spec_tokens (s2l "a~b\ c  {d e}f\~g ~ h") = [s2l "a"; s2l "b"; s2l "c"; s2l "{d e}f\~g"; s2l "h"].
 Proof. vm_compute. auto. Qed.
-(* an unclosed group: the code splits at the inner brace, the specification does not (hypothesis needed) *)
-Example ex_tokenizer_unclosed : split_tex_space (s2l "{a{b c") = Ok [s2l "{a{b"; s2l "c"] /\ spec_tokens (s2l "{a{b c") = [s2l "{a{b c"].
+(* a never-closed group swallows the rest of the string (after the fix bae0311); only strip() then differs *)
+Example ex_tokenizer_unclosed : split_tex_space (s2l "x {a{b c ") = Ok [s2l "x"; s2l "{a{b c"] /\ spec_tokens (s2l "x {a{b c ") = [s2l "x"; s2l "{a{b c "].
 Proof. vm_compute. auto. Qed.
